@@ -187,7 +187,7 @@ func InjectDefect(src *choice.Src, c *Cfg) (string, YMut) {
 		}
 		return cs[src.Draw("defect.svc", len(cs))]
 	}
-	switch k := src.Draw("defect.kind", 22); k {
+	switch k := src.Draw("defect.kind", 25); k {
 	case 0:
 		i := ensureSvc()
 		c.Services[i].Args = append(c.Services[i].Args, Arg{Kind: "svc", S: "ghost" + strconv.Itoa(src.Draw("ghost", 3))})
@@ -278,8 +278,98 @@ func InjectDefect(src *choice.Src, c *Cfg) (string, YMut) {
 		return "kind-confusion", KindConfusion
 	case 21:
 		return "dup-key", DupKey
+	case 22, 23:
+		return cycleWeb(src, c), nil
+	case 24:
+		return paramCycleWeb(src, c), nil
 	}
 	return "", nil
+}
+
+// cycleWeb: several circular dependencies at once that meet in one service, which mentions its
+// dependencies in a drawn order and some of them more than once (argument + call + field), through
+// direct references and through a tag. The names are drawn so that they sort on both sides of the
+// hub. Everything that enumerates or reports the cycles has to do so reproducibly.
+func cycleWeb(src *choice.Src, c *Cfg) string {
+	fx := `"` + FxPath + `"`
+	used := map[string]bool{}
+	for _, s := range c.Services {
+		used[s.Name] = true
+	}
+	hub := pickName(src, "web.hub", []string{"hub", "mid.point", "kernel", "Mux"}, used)
+	n := src.Range("web.nspokes", 2, 4)
+	var spokes []string
+	for i := 0; i < n; i++ {
+		spokes = append(spokes, pickName(src, "web.spoke", []string{"alpha", "spokeA", "spokeB", "zeta", "node.x", "Zulu", "beta2", "omega", "a0"}, used))
+	}
+	h := Svc{Name: hub, Ctor: fx + ".NewNode", Args: []Arg{{Kind: "str", S: hub}}}
+	tagged := src.Chance("web.tag", 1, 3)
+	for i, sp := range spokes {
+		if tagged && i == 0 {
+			h.Args = append(h.Args, Arg{Kind: "tagged", S: "web.tag"})
+			continue
+		}
+		ref := Arg{Kind: "svc", S: sp}
+		times := 1 + src.Draw("web.times", 3)
+		for k := 0; k < times; k++ {
+			switch src.Draw("web.where", 3) {
+			case 0:
+				h.Args = append(h.Args, ref)
+			case 1:
+				h.Calls = append(h.Calls, Call{Method: "Use", Args: []Arg{ref}})
+			case 2:
+				h.Fields = append(h.Fields, Field{Name: []string{"Dep", "Other", "Third"}[k], V: ref})
+			}
+		}
+	}
+	// the hub mentions its dependencies in a drawn order
+	for i := len(h.Args) - 1; i > 1; i-- {
+		j := 1 + src.Draw("web.shuffle", i)
+		h.Args[i], h.Args[j] = h.Args[j], h.Args[i]
+	}
+	c.Services = append(c.Services, h)
+	for i, sp := range spokes {
+		s := Svc{Name: sp, Ctor: fx + ".NewNode", Args: []Arg{{Kind: "str", S: sp}}}
+		if tagged && i == 0 {
+			s.Tags = append(s.Tags, Tag{Name: "web.tag"})
+		}
+		back := Arg{Kind: "svc", S: hub}
+		if i > 0 && src.Chance("web.chain", 1, 4) {
+			back = Arg{Kind: "svc", S: spokes[i-1]} // a longer cycle through the previous spoke
+		}
+		switch src.Draw("web.back", 3) {
+		case 0:
+			s.Args = append(s.Args, back)
+		case 1:
+			s.Calls = append(s.Calls, Call{Method: "Use", Args: []Arg{back}})
+		case 2:
+			s.Fields = append(s.Fields, Field{Name: "Dep", V: back})
+		}
+		c.Services = append(c.Services, s)
+	}
+	return "cycle-web"
+}
+
+// paramCycleWeb: two or three independent circular dependencies among parameters, one parameter
+// mentioning the same parameter twice.
+func paramCycleWeb(src *choice.Src, c *Cfg) string {
+	ref := func(n string) Chunk { return Chunk{Kind: "ref", S: n} }
+	n := src.Range("pweb.n", 2, 3)
+	names := [][2]string{{"web.a", "web.z"}, {"Web.m", "web.b"}, {"w0", "x.web"}}
+	for i := 0; i < n; i++ {
+		a, b := names[i][0], names[i][1]
+		if c.Param(a) != nil || c.Param(b) != nil {
+			continue
+		}
+		pa := Param{Name: a, V: Arg{Kind: "pattern", Chunks: []Chunk{ref(b), {Kind: "lit", S: "-"}, ref(b)}}}
+		pb := Param{Name: b, V: Arg{Kind: "pattern", Chunks: []Chunk{{Kind: "lit", S: "x"}, ref(a)}}}
+		if src.Bool("pweb.order") {
+			c.Params = append(c.Params, pa, pb)
+		} else {
+			c.Params = append(c.Params, pb, pa)
+		}
+	}
+	return "cycle-param-web"
 }
 
 func collect(y *Y, out *[]*Y) {
